@@ -27,6 +27,11 @@ R02.7 GHASH schedule of the one-shot bodies (lib/ghash.py, the monomial interpre
       the length block times H.  The key table is what the same family's precomp body stores.
 R02.8 AAD schedule of init: ctx->aad_hash after init contains AAD block j times H^(m-j) for every AAD length 1..200
       (thorough: 1..1100).
+R02.9 AES round typestate in the 64 bodies that produce output (one-shot and update; lib/aesrounds.py on the path each
+      length selects, update also with 8 pending bytes): every counter block goes through the whitening and rounds
+      1..Nr of the key schedule at key_data in order, the last round in its *last form (the VAES bodies fold the data
+      into the last round key - followed), and only finished blocks are stored through out (ctx->partial_block_enc_key is taken to hold the finished
+      key-stream block an earlier call left there).
 R02.3 instance floor: the four families are all offered by every GCM dispatcher of the one-shot / update /
       finalize interfaces; 96 bodies carry the argument list of aes/aes_gcm.c.
 """
@@ -38,6 +43,7 @@ import build
 import c19
 import cands
 import ghash
+import aesrounds
 import re
 import inplace
 import ir
@@ -136,6 +142,43 @@ def gh_rules(lib, key, name, sig, extra, out, add):
         out["gh_ok_" + kind] = out.get("gh_ok_" + kind, 0) + 1
 
 
+def aes_rule(lib, key, name, sig, extra, out, add):
+    fields = extra["ctx_fields"]
+    m = re.match(r"^_aes_gcm_(enc|dec)_(128|256)(_update)?_(sse|avx_gen2|avx_gen4|vaes_avx512)(_nt)?$", name)
+    if not m or not fields:
+        return
+    thorough = extra.get("tier") == "thorough"
+    nr_ = {"128": 10, "256": 14}[m.group(2)]
+    f = lib.func(key)
+    data = (list(range(1, 700)) if thorough else list(range(1, 81)) + [16 * k + r for k in BIG for r in (0, 1, 15)])
+    pbs = (0, 8) if m.group(3) else (0,)
+    bad = None
+    jr = jl = ul = 0
+    for PB in pbs:
+        for L in (data if PB == 0 else data[:48]):
+            mch = aesrounds.run_body(lib, f, sig, nr_, L, pb=PB, pboff=fields["partial_block_length"][0], carried_done=("context_data", fields["partial_block_enc_key"][0]))
+            rr = mch.result
+            if rr.stopped or not rr.returned:
+                out["broken"].append("%s: length skeleton not followed for len = %d (%s)" % (name, L, rr.stopped))
+                return
+            jr += 1
+            v, a_, b_ = aesrounds.judge(mch)
+            jl += a_
+            ul += b_
+            out["rt_rounds"] = out.get("rt_rounds", 0) + mch.rounds_ok
+            out["rt_unk"] = out.get("rt_unk", 0) + mch.rounds_unk
+            if v and not bad:
+                bad = (L, PB, v)
+    out["rt_bodies"] = out.get("rt_bodies", 0) + 1
+    out["rt_lanes"] = out.get("rt_lanes", 0) + jl
+    out["rt_unl"] = out.get("rt_unl", 0) + ul
+    out["rt_runs"] = out.get("rt_runs", 0) + jr
+    if bad:
+        add("R02.9", name, "aes-rounds:len=%d" % bad[0], "with len = %d%s: %s" % (bad[0], " and %d pending bytes" % bad[1] if bad[1] else "", bad[2][1]), bad[2][0].addr, key[1])
+    else:
+        out["rt_ok"] = out.get("rt_ok", 0) + 1
+
+
 def worker(lib, objname, extra):
     cand = extra["cand"]
     o = lib.by_name[objname]
@@ -154,6 +197,7 @@ def worker(lib, objname, extra):
             out["broken"].append("%s::%s %s" % (objname, name, b))
         out["bodies"] += 1
         gh_rules(lib, key, name, sig, extra, out, add)
+        aes_rule(lib, key, name, sig, extra, out, add)
         names = {(s[0] if s else None): argloc(k) for k, s in enumerate(sig)}
         nt = name.endswith("_nt")
         free = {}
@@ -338,7 +382,7 @@ def run(chk):
         r = res[objname]
         for k in ("bodies", "sinks", "buf_acc", "tag_bodies", "tag_cases", "tag_ok", "align_ok"):
             tot[k] += r[k]
-        for k in ("ip_bodies", "ip_pairs", "ip_ok", "lenblk_bodies", "lenblk_moves", "lenblk_ok", "gh_judged", "gh_notjudged", "gh_oneshot", "gh_init", "gh_ok_oneshot", "gh_ok_init"):
+        for k in ("ip_bodies", "ip_pairs", "ip_ok", "lenblk_bodies", "lenblk_moves", "lenblk_ok", "gh_judged", "gh_notjudged", "gh_oneshot", "gh_init", "gh_ok_oneshot", "gh_ok_init", "rt_bodies", "rt_ok", "rt_lanes", "rt_unl", "rt_runs", "rt_rounds", "rt_unk"):
             tot[k] += r.get(k, 0)
         for w_ in r.get("gh_why", []):
             if len(chk.notes) < 6:
@@ -354,6 +398,10 @@ def run(chk):
     chk.obligations["R02.2"] = [tot["tag_cases"], tot["tag_ok"]]
     chk.obligations["R02.5"] = [tot["ip_bodies"], tot["ip_ok"]]
     chk.obligations["R02.6"] = [tot["lenblk_bodies"], tot["lenblk_ok"]]
+    chk.obligations["R02.9"] = [tot["rt_bodies"], tot["rt_ok"]]
+    chk.floor("bodies judged for the AES round typestate", tot["rt_bodies"], 64)
+    chk.floor("GCM output blocks judged for the round typestate", tot["rt_lanes"], 100000)
+    chk.extra["round_typestate"] = {"runs": tot["rt_runs"], "output_blocks_judged": tot["rt_lanes"], "output_blocks_not_judged": tot["rt_unl"], "round_steps_in_order": tot["rt_rounds"], "round_steps_not_judged": tot["rt_unk"]}
     chk.obligations["R02.7"] = [tot["gh_oneshot"], tot["gh_ok_oneshot"]]
     chk.obligations["R02.8"] = [tot["gh_init"], tot["gh_ok_init"]]
     chk.floor("one-shot bodies interpreted for the GHASH schedule", tot["gh_oneshot"], 32)
